@@ -39,7 +39,9 @@ def dumpRaw : Raw → String
       match d with
       | y0 :: y1 :: rest =>
         match twoDigitYear y0 y1 with
-        | some yy => (toString (fullYear yy)).toUTF8.toList ++ rest
+        -- (the instant is shown in the layout's own spelling: a comma accepted for the decimal point
+        -- of the fraction is a point again)
+        | some yy => (toString (fullYear yy)).toUTF8.toList ++ rest.map (fun b => if b == 44 then 46 else b)
         | none => d
       | _ => d
     s!"d{sv sc}:{joinOr "," (ds.map fun d => hexB (withYear d))}"
